@@ -118,6 +118,11 @@ def gen_driver(batch, main=None, extra=''):
         out.append('static wr_global* gen_rglob(void* c, const char* m, const char* n) { (void)c; %s return NULL; }' % ' '.join(rglob))
         out.append('static wr_env gen_env;')
         pre = '%s gen_env.resolve_memory = gen_rmem; gen_env.resolve_table = gen_rtab; gen_env.resolve_global = gen_rglob; ls_user_resolve = gen_resolve; ls_user_env = &gen_env;' % ' '.join(init)
+    if getattr(batch, 'big_endian', False):
+        if not batch.externs:
+            out.append('static wr_env gen_env;')
+            pre += ' ls_user_env = &gen_env;'
+        pre += ' gen_env.big_endian_image = 1;'
     if main == 'bfs':
         rows = []
         for ci, args, flag in batch.ops:
